@@ -64,7 +64,7 @@ func (r *ownRig) close() {
 type ownReq struct {
 	ID        string `json:"id"`
 	DelayMs   int    `json:"delay_ms"`
-	TimeoutMs int    `json:"timeout_ms"` // 0 = none
+	TimeoutMs int    `json:"timeout_ms"`       // 0 = none
 	Cancel    bool   `json:"cancel,omitempty"` // the request's context is cancelled by the canceller worker
 	ClientTO  bool   `json:"client_level_timeout,omitempty"`
 }
